@@ -190,6 +190,11 @@ func init() {
 			delete(m.natives, "stdin.err")
 			return nil
 		},
+		vpkg + "SetStdinLateEOF": func(m *Machine, _ *frame, _ *ssa.Function, a []Value) Value {
+			m.natives["stdin"] = sliceBytes(a[0].(Slice))
+			delete(m.natives, "stdin.err")
+			return nil
+		},
 		vpkg + "stdinFail": func(m *Machine, _ *frame, _ *ssa.Function, a []Value) Value {
 			m.natives["stdin"] = sliceBytes(a[0].(Slice))
 			m.natives["stdin.err"] = a[1]
